@@ -39,6 +39,10 @@ func NewTLexer(input string) TLexer {
 //
 // It returns false if an error happened or there are no tokens left.
 func (tl *TLexer) Next() bool {
+	if verifOn {
+		verifTick()
+	}
+
 	if tl.readp < tl.writep-1 {
 		tl.readp++
 		return true
@@ -76,6 +80,10 @@ func (tl *TLexer) To() int {
 
 // Snapshot snapshots the lexer state.
 func (tl *TLexer) Snapshot() {
+	if verifOn {
+		verifTick()
+	}
+
 	tl.pointers = append(tl.pointers, tl.readp)
 }
 
